@@ -26,3 +26,8 @@ Print Assumptions C06_signature_flips_on_adjacent_exchange.
 Theorem C06_signature_of_identity_is_even : forall n, parity (seq 0 n) = false.
 Proof. exact parity_identity. Qed.
 Print Assumptions C06_signature_of_identity_is_even.
+(* exchanging ANY two entries of a duplicate-free labelling (any two same-spin electrons, not only neighbours) flips it *)
+Theorem C06_signature_flips_on_any_exchange : forall p x m y q, NoDup (p ++ x :: m ++ y :: q) ->
+  parity (p ++ y :: m ++ x :: q) = negb (parity (p ++ x :: m ++ y :: q)).
+Proof. exact parity_any_swap_nodup. Qed.
+Print Assumptions C06_signature_flips_on_any_exchange.
